@@ -150,6 +150,8 @@ func Heads(d Domain, body []refdl.Atom) []refdl.Atom {
 		out = append(out, refdl.A("h", ts...))
 		out = append(out, refdl.A("h", d.C0, rx.Var(vs[len(vs)-1])))
 	}
+	// the first body atom itself: every head instance is a fact that already exists
+	out = append(out, body[0])
 	return out
 }
 
